@@ -108,6 +108,43 @@ def persist_events(c, r, results):
     return evs
 
 
+def kglife_events(r, results):
+    """The log of a drop_recreate run as KgLifeTrace events (the inserted tuple's id 1 is KgLife!NewId = 100)."""
+    def ids_of(state):
+        rows = state.get("facts", {}).get("h", {}).get("r", [])
+        return sorted({100 if int(t_[0][1]) == 1 else int(t_[0][1]) for t_ in rows})
+
+    evs = [{"ev": "reset", "case": r["case"]}]
+    images = sorted(r["images"], key=lambda im: im["at"])
+    k = 0
+
+    def image_event(im):
+        return {"ev": "image", "case": r["case"], "rec": ids_of(results[os.path.join(r["dir"], im["dir"])]["state"])}
+
+    for e in r["log"]:
+        if e["ev"] not in ("point", "call", "ret"):
+            continue
+        while k < len(images) and images[k]["at"] < e["seq"]:
+            evs.append(image_event(images[k]))
+            k += 1
+        if e["ev"] == "point" and e["thr"] == "w":
+            if e["at"] == "se.write.after_time":
+                evs.append({"ev": "begin", "case": r["case"]})
+            elif e["at"] == "persist.append.after_wal":
+                evs.append({"ev": "wal", "case": r["case"]})
+        elif e["ev"] == "call" and e["op"] in ("d.1", "d.2"):
+            evs.append({"ev": "dcall" if e["op"] == "d.1" else "ccall", "case": r["case"]})
+        elif e["ev"] == "ret":
+            if e["op"] == "w.1":
+                evs.append({"ev": "iret", "case": r["case"], "ok": bool(e["ok"])})
+            elif e["op"] in ("d.1", "d.2"):
+                evs.append({"ev": "dret" if e["op"] == "d.1" else "cret", "case": r["case"]})
+    for im in images[k:]:
+        evs.append(image_event(im))
+    evs.append({"ev": "served", "case": r["case"], "ids": ids_of(r["served"])})
+    return evs
+
+
 def schedules(cfg_name, rep):
     res, out, violated = vlib.tlc_model("MC_Sched", cfg_name=cfg_name, workers=4, timeout=1200)
     rep.add_tlc(res)
@@ -142,6 +179,18 @@ def run(prop, replay=None):
                 vlib.tool_error("Persist.tla (split critical sections) no longer violates Durable: the model lost the defect")
             rep.cov["protocol_model"] = "Persist.tla: Atomic=TRUE 2030 states, Durable and NothingOnlyInMemory hold; " \
                                         "Atomic=FALSE violated in 4 steps (expected)"
+        if prop == "C17":
+            # the insert / drop / re-create protocol (spec/KgLife.tla): invariants hold with the guard and lock held from
+            # Begin to Apply (the code since 9a3b9b0); the pinned variant is an expected violation of ServedIsDurable
+            mres, mout, violated = vlib.tlc_model("KgLife", cfg_name="MC_KgLife_held", workers=2, timeout=600)
+            if violated:
+                vlib.tool_error("KgLife.tla (Held) violates its invariants: the protocol model is wrong")
+            rep.add_tlc(mres)
+            sres, sout, sviol = vlib.tlc_model("KgLife", cfg_name="MC_KgLife_released", workers=2, timeout=600, expect_violation=True)
+            if not sviol:
+                vlib.tool_error("KgLife.tla (guard released before Apply) no longer violates ServedIsDurable")
+            rep.cov["protocol_model"] = "KgLife.tla: Held=TRUE 16 states, ServedIsDurable / DropFinal / AckedIsServed hold; " \
+                                        "Held=FALSE violated in 6 steps (expected)"
         wls = [w for w, v in WORKLOADS.items() if prop in v[4]]
         per = max(1, budget // len(wls))
         for w in wls:
@@ -276,6 +325,32 @@ def run(prop, replay=None):
                     {"wl." + c["workload"], "what.persist_protocol"})
         rep.cov["persist_protocol_cases"] = len(pt_cases)
         rep.cov["persist_protocol_accepted"] = len(pt_ok)
+    # C15 / C17: the logs of drop_recreate as behaviours of KgLife.tla (spec/KgLifeTrace.tla)
+    kl_cases = [r for r in runs if prop in ("C15", "C17") and byc[r["case"]]["workload"] == "drop_recreate"]
+    if kl_cases:
+        ktrace = os.path.join(wd, "ktrace.ndjson")
+        with open(ktrace, "w") as f:
+            for r in kl_cases:
+                for ev in kglife_events(r, results):
+                    f.write(json.dumps(ev) + "\n")
+        try:
+            kres = vlib.tlc_trace("KgLifeTrace", ktrace, shards=8, timeout=3600, unit_start='"ev": "reset"')
+        except vlib.ToolError as e:
+            vlib.tool_error(str(e))
+        rep.add_tlc(kres)
+        kl_ok = {ln[1] for ln in kres.lines if isinstance(ln, list) and ln and ln[0] == "CASEOK"}
+        for r in kl_cases:
+            judged += 1
+            if r["case"] not in kl_ok:
+                c = byc[r["case"]]
+                rejected[(r["case"], "kg_lifecycle")] = (
+                    {"case_input": c, "log": [e for e in r["log"] if e["ev"] != "grant"], "served": r["served"],
+                     "events": kglife_events(r, results)},
+                    {"what": "kg_lifecycle", "note": "no behaviour of KgLife.tla (Held) explains the logged events, the recovered "
+                                                     "state of every crash image and the served state"},
+                    {"wl.drop_recreate", "what.kg_lifecycle"})
+        rep.cov["kg_lifecycle_cases"] = len(kl_cases)
+        rep.cov["kg_lifecycle_accepted"] = len(kl_ok)
     for ln in res.lines:
         if isinstance(ln, list) and ln[0] == "VERDICT" and ln[1] == prop:
             judged += 1
